@@ -372,17 +372,20 @@ def wants (a : App) (x y p : Nat) : Bool := a.targets.any fun t => t.1 == x && t
 
 def wantedBy (apps : List App) (x y p : Nat) : Option App := apps.find? fun a => wants a x y p
 
-/-- blocks of a well-formed fill: consecutive slices of at most `buf` bytes -/
-def chunks (buf : Nat) : Nat → List Nat → List (List Nat)
-  | 0, _ => []
-  | fuel + 1, data => if data.length > 0 then data.take buf :: chunks buf fuel (data.drop buf) else []
+/-- data packets of a well-formed fill: consecutive slices of at most `buf` bytes, numbered
+consecutively from `block`, stored at consecutive addresses from `addr` -/
+def ffdPkts (pid buf : Nat) : Nat → Nat → Nat → List Nat → List Pkt
+  | 0, _, _, _ => []
+  | fuel + 1, block, addr, data =>
+    if data.length > 0 then
+      .ffd pid block ((data.take buf).length / 4 - 1) addr (data.take buf) ::
+        ffdPkts pid buf fuel (block + 1) (addr + (data.take buf).length) (data.drop buf)
+    else []
 
 /-- the packets of one well-formed fill of `image` under id `pid` with selections `regs`, data at `base` -/
 def fillPkts (buf pid base appId flags : Nat) (regs : List (Nat × Nat)) (image : List Nat) : List Pkt :=
-  let blocks := chunks buf image.length image
-  .ffs pid blocks.length :: regs.map (fun rm => .ffcs rm.1 rm.2) ++
-    (blocks.zipIdx.map fun (bi : List Nat × Nat) =>
-      .ffd pid bi.2 (bi.1.length / 4 - 1) (base + bi.2 * buf) bi.1) ++ [.ffe pid appId flags]
+  .ffs pid ((image.length + buf - 1) / buf) :: regs.map (fun rm => .ffcs rm.1 rm.2) ++
+    ffdPkts pid buf image.length 0 base image ++ [.ffe pid appId flags]
 
 /-- Well-formedness of a decoded fill (reads of the base address removed): announced block
 count = blocks sent, numbered 0,1,2.., every block non-empty, a whole number of words, at most
@@ -411,7 +414,7 @@ def wellFormedFill (buf : Nat) (image : List Nat) (appId flags : Nat) : List Pkt
 
 /-- the contract of `compress_flood_fill_regions` relative to the machine's chips (C12) -/
 def regionsOK (chips : List (Nat × Nat)) (targets : List (Nat × Nat × List Nat)) (regs : List (Nat × Nat)) : Bool :=
-  strictlyIncreasing regs &&
+  strictlyIncreasing regs && (regs.all fun rm => decide (rm.2 < 262144)) &&
   (allCores chips).all fun c =>
     selectsCore regs c.1 c.2.1 c.2.2 == targets.any fun t => t.1 == c.1 && t.2.1 == c.2.1 && t.2.2.contains c.2.2
 
